@@ -212,7 +212,7 @@ def conclude(ctx, mod, t0, evidence_path, args):
                 break
         matched = None
         for k in known:
-            if re.search(k["obligation_regex"], vc.name):
+            if k.get("obligation_regex") and re.search(k["obligation_regex"], vc.name):
                 matched = k
                 break
         if matched is not None:
